@@ -5,6 +5,7 @@ from typing import Iterable, Match, Pattern
 
 from cashews._typing import TTL, Key, KeyOrTemplate, OnRemoveCallback, Tag, Tags, Value
 from cashews.backends.interface import Backend
+from cashews.commands import Command
 from cashews.formatter import default_format, template_to_re_pattern
 
 from .commands import CommandWrapper
@@ -71,7 +72,12 @@ class CommandsTagsWrapper(CommandWrapper):
     def _on_remove_callback(self) -> OnRemoveCallback:
         async def _callback(keys: Iterable[Key], backend: Backend) -> None:
             for tag, _keys in self._group_by_tags(keys).items():
-                await self.tags_backend.set_remove(self._tags_key_prefix + tag, *_keys)
+                tags_backend = self.tags_backend
+                if tags_backend.is_disable(Command.SET_REMOVE):
+                    # the bookkeeping talks to the backend directly, not through the disable middleware:
+                    # a disabled set_remove (or a disabled tags backend) must not be issued behind the caller's back
+                    continue
+                await tags_backend.set_remove(self._tags_key_prefix + tag, *_keys)
 
         return _callback
 
